@@ -165,6 +165,9 @@ def gen_scenarios(plan_items, seed, out, scale=1.0):
             args = [sys.executable, os.path.join(HERE, "gen", "gen.py"), "--fam", fam, "--n", str(n), "--seed", str(seed * 131 + idx)]
             if params:
                 args += ["--param", params]
+            if fam == "tlcws":       # behaviours enumerated by TLC from the code-shaped model
+                k = dict(kv.split("=") for kv in params.split(",") if kv).get("k", "3")
+                args = [sys.executable, os.path.join(HERE, "gen", "tlcgen.py"), "--steps", k, "--sample", str(n), "--seed", str(seed * 131 + idx)]
             p = subprocess.run(args, capture_output=True, text=True)
             if p.returncode != 0:
                 raise Infra("gen.py failed: " + p.stderr[-2000:])
@@ -250,6 +253,7 @@ def _run_ino(prop, tier, seed, plan, tmp, t0, only_scn):
     known_hit = {}
     viols = []
     infra = []
+    drift = []
     fog = 0
     validated = 0
     tags = {}
@@ -260,6 +264,8 @@ def _run_ino(prop, tier, seed, plan, tmp, t0, only_scn):
             infra.append((sid, rr["infra"][0]))
             continue
         validated += 1
+        if rr.get("drift"):
+            drift.append((sid, rr["drift"][0]))
         if rr["fog"]:
             fog += 1
         for t in rr["tags"]:
@@ -304,6 +310,8 @@ def _run_ino(prop, tier, seed, plan, tmp, t0, only_scn):
         out_lines.append("VIOLATION property=%s replay=%s" % (prop, d))
         log("violation: scenario=%s cause=%s" % (sid, cause))
         nrep += 1
+    if drift:
+        log("MODEL-DRIFT: the code-shaped model predicted other table sizes than observed in %d generated behaviours, e.g. %s" % (len(drift), json.dumps(drift[0])))
     for c, (k, sid) in known_hit.items():
         log("KNOWN-FINDING: property=%s cause=%s %s (e.g. scenario %s)" % (prop, c, k["text"], sid))
     for ln in out_lines:
@@ -333,6 +341,7 @@ def _run_ino(prop, tier, seed, plan, tmp, t0, only_scn):
                      % [f for f, _, _ in plan[tier]],
                 situation_counts=tags,
                 scenarios_not_judged_after_fog=fog,
+                model_drift=len(drift),
                 known_findings_hit=sorted(known_hit),
                 samples=samples,
                 exhaustive=False),
